@@ -98,9 +98,31 @@ func recvName(e ast.Expr) string {
 	return "?"
 }
 
+// die aborts the CURRENT extractor: main runs every extractor under recover, so one section of
+// the source that no longer has the expected shape does not stop the others from being regenerated.
+type genFailure struct{ msg string }
+
 func die(f string, a ...any) {
-	fmt.Fprintf(os.Stderr, "gen: "+f+"\n", a...)
-	os.Exit(2)
+	panic(genFailure{fmt.Sprintf(f, a...)})
+}
+
+var genFailed []string
+
+// guarded runs one extractor; a die() inside it is recorded and reported, not fatal.
+func guarded(name string, f func()) (ok bool) {
+	defer func() {
+		if r := recover(); r != nil {
+			gf, isDie := r.(genFailure)
+			if !isDie {
+				gf = genFailure{fmt.Sprintf("panic: %v", r)}
+			}
+			fmt.Fprintf(os.Stderr, "gen: FAILED section=%s: %s\n", name, gf.msg)
+			genFailed = append(genFailed, name)
+			ok = false
+		}
+	}()
+	f()
+	return true
 }
 
 // evalInt evaluates an integer constant expression.
@@ -270,9 +292,13 @@ func writeIfChanged(path, content string) {
 
 func main() {
 	if len(os.Args) != 3 {
-		die("usage: gen <repo/trzsz dir> <Gen output dir>")
+		fmt.Fprintln(os.Stderr, "usage: gen <repo/trzsz dir> <Gen output dir>")
+		os.Exit(2)
 	}
-	s := load(os.Args[1])
+	var s *src
+	if !guarded("load", func() { s = load(os.Args[1]) }) {
+		os.Exit(2)
+	}
 	o := &out{}
 	o.raw("(* GENERATED by /verif/go/cmd/gen from the current source of trzsz-go. Do not edit. *)\n")
 	o.raw("From Coq Require Import List NArith ZArith.\nImport ListNotations.\nOpen Scope N_scope.\n\n")
@@ -282,8 +308,14 @@ func main() {
 	}
 	sort.Strings(names)
 	for _, n := range names {
-		o.raw("(* ---- %s ---- *)\n", n)
-		constGens[n](s, o)
+		// a section is emitted whole or not at all: its definitions go to a scratch buffer first
+		sec := &out{}
+		if guarded(n, func() { constGens[n](s, sec) }) {
+			o.raw("(* ---- %s ---- *)\n", n)
+			o.b.WriteString(sec.b.String())
+		} else {
+			o.raw("(* ---- %s ---- NOT GENERATED: the source no longer has the shape this extractor expects *)\n", n)
+		}
 		o.raw("\n")
 	}
 	writeIfChanged(filepath.Join(os.Args[2], "Consts.v"), o.b.String())
@@ -293,7 +325,14 @@ func main() {
 	}
 	sort.Strings(names)
 	for _, n := range names {
-		writeIfChanged(filepath.Join(os.Args[2], n), fileGens[n](s))
+		var txt string
+		if !guarded(n, func() { txt = fileGens[n](s) }) {
+			txt = "(* NOT GENERATED: the source no longer has the shape the extractor of this file expects. *)\n"
+		}
+		writeIfChanged(filepath.Join(os.Args[2], n), txt)
+	}
+	if len(genFailed) > 0 {
+		os.Exit(3)
 	}
 }
 
